@@ -28,6 +28,22 @@ pub struct Opts {
     /// with `Mode::Export`: print the text the real serializer produces for this format
     /// (as a JSON string literal) instead of the canonical tree
     pub text_format: Option<nickel_lang_core::serialize::ExportFormat>,
+    /// append ` TRACE <json array of std.trace lines>` to a successful outcome
+    pub capture_trace: bool,
+}
+
+/// `std.trace` sink shared with the caller.
+#[derive(Clone, Default)]
+pub struct TraceBuf(pub std::sync::Arc<std::sync::Mutex<Vec<u8>>>);
+
+impl std::io::Write for TraceBuf {
+    fn write(&mut self, buf: &[u8]) -> std::io::Result<usize> {
+        self.0.lock().unwrap().extend_from_slice(buf);
+        Ok(buf.len())
+    }
+    fn flush(&mut self) -> std::io::Result<()> {
+        Ok(())
+    }
 }
 
 #[derive(Clone, Copy, Debug, PartialEq)]
@@ -48,6 +64,7 @@ impl Default for Opts {
             keep_order: false,
             mode: Mode::Export,
             text_format: None,
+            capture_trace: false,
         }
     }
 }
@@ -233,10 +250,11 @@ fn set_knobs(o: &Opts) {
 
 fn run_inner(src: &str, o: &Opts) -> Outcome {
     // the knobs are thread-local: set them on the evaluating thread; stdlib loading is not metered
+    let trace = TraceBuf::default();
     let mut prog: Program<CacheImpl> = match Program::new_from_source(
         Cursor::new(src.to_owned()),
         "<verif>",
-        std::io::sink(),
+        trace.clone(),
         NullReporter {},
     ) {
         Ok(p) => p,
@@ -276,6 +294,11 @@ fn run_inner(src: &str, o: &Opts) -> Outcome {
     }
     match res {
         Ok(v) => match show_value(&v, o.mode == Mode::Export, o.keep_order) {
+            Ok(s) if o.capture_trace => {
+                let t = String::from_utf8_lossy(&trace.0.lock().unwrap()).into_owned();
+                let lines: Vec<&str> = t.lines().collect();
+                Outcome::Ok(format!("{s} TRACE {}", serde_json::to_string(&lines).unwrap()))
+            }
             Ok(s) => Outcome::Ok(s),
             Err(class) => Outcome::Err { class, detail: "while printing the result".into() },
         },
